@@ -385,10 +385,14 @@ class AlignmentCollector:
             alignment_info.construct_profiles(profile_constructor)
             read_assignment = assigner.assign_to_isoform(read_id, alignment_info.combined_profile)
 
-            if (not read_assignment.assignment_type in [ReadAssignmentType.unique,
-                                                        ReadAssignmentType.unique_minor_difference,
-                                                        ReadAssignmentType.ambiguous])\
-                    and alignment.mapping_quality < self.params.inconsistent_mapq_cutoff:
+            if read_assignment.assignment_type.is_inconsistent() and \
+                    alignment.mapping_quality < self.params.inconsistent_mapq_cutoff:
+                continue
+            if read_assignment.assignment_type in [ReadAssignmentType.noninformative, ReadAssignmentType.intergenic] and \
+                    len(alignment_info.read_exons) <= 2 and \
+                    (alignment.is_secondary or alignment.mapping_quality < self.params.simple_alignments_mapq_cutoff):
+                # same rule as for regions without genes: whether an alignment that matches no gene is kept
+                # must not depend on the reads it happens to be processed with
                 continue
 
             if alignment_info.exons_changed:
